@@ -186,6 +186,11 @@ def map1(ex, f, v):
 def binop(ex, op, a, b):
     if isinstance(op, ast.MatMult):
         return matmul(ex, a, b)
+    if isinstance(op, (ast.BitAnd, ast.BitOr)):
+        f = tm.land if isinstance(op, ast.BitAnd) else tm.lor
+        a2 = a if isinstance(a, (ArrV, T)) else tm.lift(a)
+        b2 = b if isinstance(b, (ArrV, T)) else tm.lift(b)
+        return ew(ex, lambda ar, x, y: f(x, y), a2, b2, dtype="b")
     if isinstance(a, (list, tuple)) and isinstance(b, (list, tuple)) and isinstance(op, ast.Add):
         return type(a)(list(a) + list(b))
     if isinstance(a, str) and isinstance(b, str) and isinstance(op, ast.Add):
@@ -606,8 +611,17 @@ def table_getitem(ex, t, idx):
     if isinstance(idx, ArrV) and idx.dtype == "b":
         if t.kind != "DataFrame":
             raise Raised("KeyError")
-        used(ex, "pandas: df[mask] keeps exactly the rows whose mask is true, in order")
-        return TableV({k: arr_getitem(ex, a, idx) for k, a in t.cols.items()}, t.kind)
+        used(ex, "pandas: df[mask] is a new table holding exactly the rows whose mask is true, in order (its length and rows are symbolic; the filter is recorded)")
+        flt = ex.ghost.setdefault("row_filters", [])
+        kf = len(flt)
+        m = ex.fresh_var(f"nrows_sel{kf}", tm.I)
+        ex.facts.append(tm.ge(m, tm.const(0)))
+        cols = {}
+        for cname, a in t.cols.items():
+            cols[cname] = ArrV((m,), (lambda i, cname=cname, kf=kf: tm.app(f"sel{kf}[{cname}]", i, tm.R)), a.dtype, name=f"sel{kf}[{cname}]")
+        new = TableV(cols, t.kind)
+        flt.append({"source": t, "mask": idx.cur(), "result": new, "nrows": m, "id": kf})
+        return new
     raise OutOfSubset("table index")
 
 
@@ -1728,3 +1742,147 @@ class OpaqueValue:
 
 
 _reg("scipy.optimize.curve_fit", curve_fit)
+
+
+# ---- pandas / scipy.ndimage / lmfit / matplotlib entry points used by forecast_pressure.py and plotting.py -------
+
+
+def pd_notna(ex, v):
+    v = as_array(ex, v)
+    used(ex, "pandas.notna: element-wise 'is not missing'")
+    return ew(ex, lambda ar, x: tm.app("notna", [x], tm.B), v, dtype="b")
+
+
+def uniform_filter1d(ex, x, size=None, **kw):
+    """scipy.ndimage.uniform_filter1d(x, size): size == 1 => the input unchanged (idealised: equal up to the last bit);
+    otherwise a running mean, kept opaque"""
+    x = as_array(ex, x)
+    size = tm.lift(num(size))
+    used(ex, "scipy.ndimage.uniform_filter1d(x, size=1) == x; other sizes: opaque running mean of x")
+    if tm.is_const(size) and tm.cval(size) == 1:
+        return arr_copy(ex, x)
+    f = x.cur()
+    tag = getattr(x, "name", None) or f"arr{x.id}"
+    ex.ghost.setdefault("filters", []).append({"input": x, "size": size})
+    return ArrV(x.shape, lambda idx: tm.ite(tm.eq(size, tm.const(1)), f(idx), tm.app(f"boxcar[{tag}]", (size,) + tuple(idx), tm.R)), "f8", name=f"boxcar[{tag}]")
+
+
+class ParamV:
+    def __init__(self, name, value, lo, hi):
+        self.name, self.value, self.min, self.max = name, value, lo, hi
+
+    def getattr_model(self, ex, name):
+        if name in ("value", "min", "max", "name"):
+            return getattr(self, name)
+        raise OutOfSubset("Parameter." + name)
+
+
+class ParamsV:
+    def __init__(self):
+        self.items = {}
+
+    def getattr_model(self, ex, name):
+        if name == "add":
+            def add(ex, pname, value=None, vary=True, min=None, max=None, **kw):
+                if kw:
+                    raise OutOfSubset(f"Parameters.add options {sorted(kw)}")
+                self.items[pname] = ParamV(pname, tm.lift(num(value)), None if min is None else tm.lift(num(min)), None if max is None else tm.lift(num(max)))
+                used(ex, "lmfit.Parameters.add(name, value, min, max): declares the parameter with its limits")
+            return LibFn("Parameters.add", add)
+        raise OutOfSubset("Parameters." + name)
+
+    def getitem_model(self, ex, key):
+        if key not in self.items:
+            raise Raised("KeyError", str(key))
+        return self.items[key]
+
+
+class MinimizerV:
+    def __init__(self, ex, fcn, params, fcn_args=(), **kw):
+        if kw:
+            raise OutOfSubset(f"Minimizer options {sorted(kw)}")
+        self.fcn, self.params, self.fcn_args = fcn, params, tuple(fcn_args)
+        used(ex, "lmfit.Minimizer(fcn, params, fcn_args).minimize(...): calls fcn(params, *fcn_args); every returned parameter value lies within its [min, max]")
+
+    def getattr_model(self, ex, name):
+        if name == "minimize":
+            def minimize(ex, method=None, max_nfev=None, **kw):
+                res = ParamsV()
+                for pname, prm in self.params.items.items():
+                    v = ex.fresh_var(f"fit_{pname}")
+                    if prm.min is not None:
+                        ex.facts.append(tm.le(prm.min, v))
+                    if prm.max is not None:
+                        ex.facts.append(tm.le(v, prm.max))
+                    res.items[pname] = ParamV(pname, v, prm.min, prm.max)
+                out = MinimizerResultV(res, self)
+                ex.ghost.setdefault("minimize_calls", []).append({"minimizer": self, "method": method, "max_nfev": max_nfev, "result": out})
+                return out
+            return LibFn("Minimizer.minimize", minimize)
+        raise OutOfSubset("Minimizer." + name)
+
+
+class MinimizerResultV:
+    def __init__(self, params, minimizer):
+        self.params, self.minimizer = params, minimizer
+
+    def getattr_model(self, ex, name):
+        if name == "params":
+            return self.params
+        raise OutOfSubset("MinimizerResult." + name)
+
+
+class AxesV:
+    _n = [0]
+
+    def __init__(self, ex):
+        AxesV._n[0] += 1
+        self.id = AxesV._n[0]
+        used(ex, "matplotlib Axes.plot(x, y, ...) draws one curve carrying exactly (x, y); set/legend/set_xticks draw nothing")
+
+    def getattr_model(self, ex, name):
+        if name == "plot":
+            def plot(ex, x, y, *fmt, **kw):
+                ex.ghost.setdefault("effects", []).append({"kind": "plot", "ax": self, "x": x, "y": y, "pc": list(ex.pc)})
+                return [None]
+            return LibFn("Axes.plot", plot)
+        if name in ("set", "legend", "set_xticks", "set_xlabel", "set_ylabel", "set_xlim", "set_ylim", "set_xscale", "set_yscale"):
+            return LibFn("Axes." + name, lambda ex, *a, **k: None)
+        raise OutOfSubset("Axes." + name)
+
+
+class FigV:
+    def getattr_model(self, ex, name):
+        if name in ("set_size_inches", "tight_layout", "suptitle"):
+            return LibFn("Figure." + name, lambda ex, *a, **k: None)
+        raise OutOfSubset("Figure." + name)
+
+
+def plt_subplots(ex, nrows=1, ncols=1, **kw):
+    nr = int(tm.cval(tm.lift(num(nrows))))
+    nc = int(tm.cval(tm.lift(num(ncols))))
+    axes = [AxesV(ex) for _ in range(nr * nc)]
+    ex.ghost.setdefault("axes", []).extend(axes)
+    if nr * nc == 1:
+        return (FigV(), axes[0])
+    return (FigV(), tuple(axes))
+
+
+def np_round(ex, v, decimals=0):
+    v = as_array(ex, v)
+    return ew(ex, lambda ar, x: tm.app("round", [x, tm.lift(num(decimals))], tm.R), v, real_result=True)
+
+
+def np_logspace(ex, a, b, n):
+    n_ = tm.lift(num(n))
+    a_, b_ = tm.lift(num(a)), tm.lift(num(b))
+    return ArrV((n_,), lambda idx: tm.app("logspace", [a_, b_, n_, idx[0]], tm.R), "f8")
+
+
+_reg("pandas.notna", pd_notna)
+_reg("scipy.ndimage.uniform_filter1d", uniform_filter1d)
+_reg("lmfit.Parameters", lambda ex: ParamsV())
+_reg("lmfit.Minimizer", lambda ex, fcn, params, **kw: MinimizerV(ex, fcn, params, **kw))
+_reg("matplotlib.pyplot.subplots", plt_subplots)
+_reg("numpy.round", np_round)
+_reg("numpy.logspace", np_logspace)
